@@ -92,6 +92,11 @@ func GenC05(r *core.Rand, tier string) core.Schedule {
 		cfg.TOAppliedPermille = uint64(r.Range(0, 40))
 		cfg.TOLostPermille = uint64(r.Range(0, 30))
 	}
+	if faulty && r.Chance(0.25) {
+		// proposals that outlive their caller's deadline: ErrTimeout now, committed a little later
+		cfg.TOLatePermille = uint64(r.Range(10, 120))
+		cfg.TOLateMaxMs = []uint64{50, 700, 3000}[r.Intn(3)]
+	}
 	big := r.Chance(0.12)
 	if big {
 		// values large enough for one Replicate response to be split into several follower proposals
